@@ -11,6 +11,7 @@ package simrt
 import (
 	"fmt"
 	"hash/fnv"
+	"os"
 	"reflect"
 	"runtime"
 	"sort"
@@ -750,8 +751,10 @@ func (s *Sim) Shutdown() error {
 		signalRaw(g.wake)
 		select {
 		case <-s.poisonAck:
-		case <-time.After(180 * time.Second): // generous: only a guard against a goroutine wedged in native blocking code
-			err = fmt.Errorf("simrt: goroutine %s did not exit on shutdown (last site %s)", g.Name, g.LastSite)
+		case <-time.After(shutdownTimeout()):
+			buf := make([]byte, 1<<18)
+			n := runtime.Stack(buf, true)
+			err = fmt.Errorf("simrt: goroutine %s did not exit on shutdown (last site %s, op %d, done %v)\n%s", g.Name, g.LastSite, g.op.kind, g.done, buf[:n])
 		}
 	}
 	cur = nil
@@ -1069,4 +1072,15 @@ func (s *Sim) IsParkedIdle(g *G) bool {
 	r := !s.opReady(g)
 	s.evaluating = save
 	return r
+}
+
+// shutdownTimeout is generous: it only guards against a goroutine wedged in
+// native blocking code.  VERIF_SHUTDOWN_TIMEOUT (seconds) overrides it.
+func shutdownTimeout() time.Duration {
+	if v := os.Getenv("VERIF_SHUTDOWN_TIMEOUT"); v != "" {
+		if n, err := strconv.Atoi(v); err == nil {
+			return time.Duration(n) * time.Second
+		}
+	}
+	return 180 * time.Second
 }
